@@ -241,10 +241,14 @@ def adjoint_rule(chk, src):
                   "i * operator); real operators do not see the difference: " + (probs[0] if probs else ""))
     chk.ob("adjoint", "Mpo.conj_trans: bond labels and total charge negated", okq, ct.where, {"qn": [repr(x) for x in out.qn[1]] if isinstance(out, MPSym) else None, "qntot": repr(getattr(out, "qntot", None))}, "all negated", line=ct.node.lineno)
     cj = src.func(MP, "MatrixProduct.conj")
-    me2 = MPSym("A", {i: Site(i) for i in range(N)})
-    out2 = SymInterp(src, None, {}).call_function(cj, [me2])
-    ok2 = isinstance(out2, MPSym) and out2 is not me2 and all(conj_of(out2.sites.get(i), i) for i in range(N)) and all(not any(l.conj for l in s_.legs) for s_ in me2.sites.values())
-    chk.ob("adjoint", "MatrixProduct.conj: every site conjugated, source untouched", ok2, cj.where, {i: repr(v) for i, v in getattr(out2, "sites", {}).items()}, "new[i] = self[i].conj()", line=cj.node.lineno)
+    for cplx in (True, False):
+        me2 = MPSym("A", {i: Site(i) for i in range(N)})
+        me2.__dict__.update(is_complex=cplx, dtype="complex" if cplx else "real")
+        out2 = SymInterp(src, None, {"np": OpenSym("np")}).call_function(cj, [me2])
+        ok2 = isinstance(out2, MPSym) and out2 is not me2 and all(conj_of(out2.sites.get(i), i) for i in range(N)) and all(not any(l.conj for l in s_.legs) for s_ in me2.sites.values())
+        chk.ob("adjoint", f"MatrixProduct.conj [{'complex' if cplx else 'real'} operand]: a new object, every site conjugated, source untouched", ok2, cj.where,
+               "the operand itself" if out2 is me2 else {i: repr(v) for i, v in getattr(out2, "sites", {}).items()}, "a new object with new[i] = self[i].conj()", line=cj.node.lineno,
+               detail="the conjugate is an object of its own also for real operands: in-place arithmetic on it (scale, normalize, compress, the coefficient folding of add) must not reach the operand")
 
 
 
